@@ -141,7 +141,12 @@ def genRowMap (f : List (Option Nat)) (newDim : Nat) (r : Row) : Option Row :=
   if r.b == 0 then
     if cf.all (· == 0) then none
     else some (if r.eq then ({ r with cf := cf } : Row).strongNormalize else ({ r with cf := cf } : Row).normalize)
-  else some ({ r with cf := cf } : Row).normalize
+  else
+    -- `point(expr, d)` / `closure_point(expr, d)` build a normalised generator WITHOUT epsilon column;
+    -- inserted into an NNC system a point gets `epsilon := divisor` (Generator_System.cc:236-246),
+    -- whatever the epsilon coefficient of the old row was
+    let r0 := ({ r with cf := cf, eps := 0 } : Row).normalize
+    some (if r.eps > 0 then { r0 with eps := r0.b } else r0)
 
 /-- `Generator_System::add_corresponding_closure_points` (Generator_System.cc:85) -/
 def addCorrespondingClosurePoints (rows : List Row) : List Row :=
